@@ -5,6 +5,7 @@ CONSTANTS
   AtomicPut = FALSE
   CatchLoad = FALSE
   MaxCrashes = 2
+  FreeRequests = 0
 INIT Init
 NEXT Next
 CHECK_DEADLOCK FALSE
